@@ -141,7 +141,7 @@ def dtype_independent(ctx, kind="rk4"):
     ctx.prove("weights b_i do not depend on the state dtype", pi[2] == pf[2])
 
 
-def through_model(ctx, kind="rk4", d=2):
+def through_model(ctx, kind="rk4", d=2, tail="array1"):
     """through GenericModel-style nested state (list of arrays) and the real flatten/unflatten: the model's getdXdt is
     called at the documented times, with states of the supplied layout, and the model's X is not modified"""
     from kawin.GenericModel import GenericModel
@@ -153,16 +153,19 @@ def through_model(ctx, kind="rk4", d=2):
     c, a, b = pr
     t = ctx.real("t", (-2.0, 5.0)); dt = ctx.real("dt", (0.01, 2.0))
     ctx.assume(dt > 0); ctx.assume(dt < 1e29)
-    X0 = [ctx.reals("A", d, (-2.0, 2.0)), ctx.reals("B", 1, (-2.0, 2.0))]
-    orig = [[X0[0][j] for j in range(d)], [X0[1][0]]]
-    ks = [[ctx.reals("kA%d" % i, d, (-2.0, 2.0)), ctx.reals("kB%d" % i, 1, (-2.0, 2.0))] for i in range(ns)]
-    seen = {"t": [], "shapes": []}
+    scalar = tail == "scalar"          # [array, scalar]: a scalar entry that follows an array entry
+    X0 = [ctx.reals("A", d, (-2.0, 2.0)), ctx.real("B", (-2.0, 2.0)) if scalar else ctx.reals("B", 1, (-2.0, 2.0))]
+    tailv = (lambda X: X[1]) if scalar else (lambda X: X[1][0])
+    orig = [[X0[0][j] for j in range(d)], [tailv(X0)]]
+    ks = [[ctx.reals("kA%d" % i, d, (-2.0, 2.0)), ctx.real("kB%d" % i, (-2.0, 2.0)) if scalar else ctx.reals("kB%d" % i, 1, (-2.0, 2.0))] for i in range(ns)]
+    seen = {"t": [], "shapes": [], "X": []}
     m = GenericModel()
     s = DESolver(ITER[kind][2])
 
     def f(tt, X):
         seen["t"].append(tt)
         seen["shapes"].append([np.shape(x) for x in X])
+        seen["X"].append([[X[0][j] * 1 for j in range(d)], tailv(X) * 1])
         return ks[len(seen["t"]) - 1]
     s.setdXdtFunctions(f, s.correctdXdtNotImplemented, lambda dXdt: dt, m.flattenX, m.unflattenX)
     s._dtmin = 0.0; s._dtmax = 1e30
@@ -174,14 +177,21 @@ def through_model(ctx, kind="rk4", d=2):
         return
     for i in range(ns):
         ctx.prove("model_called_at_documented_time", ctx.eq(seen["t"][i], t + float(c[i]) * dt if c[i] != 0 else t + 0.0 * dt))
-        ctx.prove("model_sees_supplied_layout", seen["shapes"][i] == [(d,), (1,)])
+        ctx.prove("model_sees_supplied_layout", seen["shapes"][i] == [(d,), () if scalar else (1,)])
+        # the stage state handed to the model: every entry of the layout carries its own linear form
+        for j in range(d):
+            ref = orig[0][j] + dt * sum((float(a[i][m_]) * ks[m_][0][j] for m_ in range(ns) if a[i][m_] != 0), 0.0 * dt)
+            ctx.prove("stage state through unflatten: array entry", ctx.eq(seen["X"][i][0][j], ref))
+        ref = orig[1][0] + dt * sum((float(a[i][m_]) * tailv(ks[m_]) for m_ in range(ns) if a[i][m_] != 0), 0.0 * dt)
+        ctx.prove("stage state through unflatten: trailing entry", ctx.eq(seen["X"][i][1], ref))
     for j in range(d):
         ctx.prove("model_state_not_modified", ctx.eq(X0[0][j], orig[0][j]))
-        ref = orig[0][j] + dt * sum((float(b[m_]) * ks[m_][0][j] for m_ in range(ns)), 0.0 * dt)
-        if kind == "euler":
-            ctx.prove("result_through_flatten_roundtrip", ctx.eq(xn[0][j], ref))
-    ctx.prove("model_state_not_modified", ctx.eq(X0[1][0], orig[1][0]))
-    ctx.prove("result_layout", [np.shape(x) for x in xn] == [(d,), (1,)])
+        ref = orig[0][j] + dt * sum((b[m_].numerator * ks[m_][0][j] / b[m_].denominator for m_ in range(ns) if b[m_] != 0), 0.0 * dt)
+        ctx.prove("result_through_flatten_roundtrip", ctx.eq(xn[0][j], ref))
+    ref = orig[1][0] + dt * sum((b[m_].numerator * tailv(ks[m_]) / b[m_].denominator for m_ in range(ns) if b[m_] != 0), 0.0 * dt)
+    ctx.prove("result_through_flatten_roundtrip: trailing entry", ctx.eq(tailv(xn), ref))
+    ctx.prove("model_state_not_modified", ctx.eq(tailv(X0), orig[1][0]))
+    ctx.prove("result_layout", [np.shape(x) for x in xn] == [(d,), () if scalar else (1,)])
 
 
 _F = [ExplicitEulerIterator, RK4Iterator, DESolver._getdXdt, DESolver._updateX]
@@ -231,6 +241,7 @@ HARNESSES = [
     Harness("C06.dtype_independent", dtype_independent, functions=_F, assumptions=["concrete affine probing with float and integer state arrays"],
             bounds={"state dimension": 2}, validate=1, params={"quick": [{"kind": "euler"}, {"kind": "rk4"}], "thorough": [{"kind": "euler"}, {"kind": "rk4"}]}),
     Harness("C06.through_model", through_model, functions=_F,
-            bounds={"state": "nested [array(d), array(1)]"},
-            params={"quick": [{"kind": "euler", "d": 2}, {"kind": "rk4", "d": 2}], "thorough": [{"kind": "euler", "d": 3}, {"kind": "rk4", "d": 3}]}),
+            bounds={"state": "nested [array(d), array(1)] and [array(d), scalar]"},
+            params={"quick": [{"kind": "euler", "d": 2}, {"kind": "rk4", "d": 2}, {"kind": "rk4", "d": 2, "tail": "scalar"}, {"kind": "euler", "d": 2, "tail": "scalar"}],
+                    "thorough": [{"kind": "euler", "d": 3}, {"kind": "rk4", "d": 3}, {"kind": "rk4", "d": 3, "tail": "scalar"}, {"kind": "euler", "d": 3, "tail": "scalar"}]}),
 ]
